@@ -180,7 +180,22 @@ func (h *MultiHandler) Accept(msg *Message) {
 	h.finalize()
 }
 
+// safely runs f, which decodes and verifies a message received from the network, and turns a panic into an error:
+// whatever a peer sends, processing it must not take down the party that receives it.
+func safely(f func() error) (err error) {
+	defer func() {
+		if r := recover(); r != nil {
+			err = fmt.Errorf("panic while processing message: %v", r)
+		}
+	}()
+	return f()
+}
+
 func (h *MultiHandler) verifyBroadcastMessage(msg *Message) error {
+	return safely(func() error { return h.doVerifyBroadcastMessage(msg) })
+}
+
+func (h *MultiHandler) doVerifyBroadcastMessage(msg *Message) error {
 	r, ok := h.rounds[msg.RoundNumber]
 	if !ok {
 		return nil
@@ -208,11 +223,15 @@ func (h *MultiHandler) verifyBroadcastMessage(msg *Message) error {
 		return nil
 	}
 
-	return h.verifyMessage(msg)
+	return h.doVerifyMessage(msg)
 }
 
 // verifyMessage tries to handle a normal (non reliably broadcast) message for this current round.
 func (h *MultiHandler) verifyMessage(msg *Message) error {
+	return safely(func() error { return h.doVerifyMessage(msg) })
+}
+
+func (h *MultiHandler) doVerifyMessage(msg *Message) error {
 	// we simply return if we haven't reached the right round.
 	r, ok := h.rounds[msg.RoundNumber]
 	if !ok {
